@@ -28,13 +28,15 @@ QUICK = [c for c in c04.QUICK if c[2] is None] + [
     ('split_orderbook_last', dict(T=4, ob_last=True, orders=((0, 1, 2.0), (2, 4, -1.5), (3, 4, 1.0))), '2h', 'A'),
     ('split_two_node', dict(T=4, freq='12h', unit='h', wacc=True), 'd', 'A'),
     ('orderbook_all_outside', dict(T=3, orders=((-3, -1, 1.0), (5, 7, 1.0))), None, 'B'),
+    ('storage_window_no_simult', dict(T=4, win_s=(2, 4), storage_kw=dict(no_simult_in_out=True)), None, 'A'),
+    ('plant_window_late', dict(T=4, fuel=True, mr=2, win=(2, 4)), None, 'B'),
 ]
 THOROUGH = QUICK + [c for c in c04.THOROUGH if c[2] is None and c not in c04.QUICK] + [
     ('names_collide_T12', dict(T=12, names=('1x', 'x')), None, 'A'),
     ('contract_storage_mip', dict(T=3, storage_kw=dict(no_simult_in_out=True)), None, 'B'),
     ('contract_storage_msd', dict(T=4, storage_kw=dict(max_store_duration=2)), None, 'B'),
 ]
-SHAPE_OF = dict(c04.SHAPE_OF, plant_dict_costs='plant', names_collide='names', names_collide_T12='names', plant_win_empty='plant',
+SHAPE_OF = dict(c04.SHAPE_OF, storage_window_no_simult='contract_storage', plant_window_late='plant', plant_dict_costs='plant', names_collide='names', names_collide_T12='names', plant_win_empty='plant',
                 orderbook_all_outside='orderbook', contract_storage_mip='contract_storage',
                 contract_storage_msd='contract_storage')
 GRIDV_QUICK = [('two_node', 'month_d'), ('plant_dict_costs', 'day_d_cet_dst'), ('windows_gap', 'quarter_min'), ('scaled_storage', 'day_h_useast_fall')]
@@ -238,6 +240,12 @@ def run_case(case_id, tier, seed, shape, kw, split, level):
             structural(rec, P + '/asset/' + b.asset, b, tg.T, env_pt)
         lp = lpsem.LP(op)
         n = lp.n
+        # ---- internal (boolean) variables are mapped to the step of the dispatch variables they switch
+        conf = common.internal_step_conflicts(op)
+        if conf:
+            _fail(rec, P + '/internal_variable_steps', dict(kind='internal_steps', env=env_pt, conflicts=[list(map(str, c)) for c in conf[:4]]))
+        else:
+            _ok(rec, P + '/internal_variable_steps')
         # ---- l <= u for all parameter values in the domain
         goals = [lp.l[i] <= lp.u[i] for i in range(n) if not z3.is_true(z3.simplify(lp.l[i] <= lp.u[i]))]
         if goals:
@@ -385,6 +393,8 @@ def judge(case, kwargs, cand, ans):
     if info.get('kind') == 'mapping':
         from . import c14
         return c14.judge(case, kwargs, cand, ans)
+    if info.get('kind') == 'internal_steps':
+        return common.judge_internal_steps(ans['obs']['problem'])
     if info.get('kind') == 'periodic_rows':
         b = ans['obs'].get('periodic_rows')
         return (True, 'mapping of the periodic problem: %s' % b) if b else (False, 'mapping rows of the periodic problem are right on the unshimmed code')
